@@ -552,3 +552,370 @@ Qed.
 
 Lemma str_eqb_true a b : str_eqb a b = true -> a = b.
 Proof. exact (str_eqb_eq a b). Qed.
+
+(* ================================================================ 3. phase 1 of the reader on a written element *)
+Definition dummy_class : class := mkClass (-1) true [] [] [] [].
+Definition class_or (mm : mmodel) (c : Z) : class :=
+  match find_class mm c with Some k => k | None => dummy_class end.
+Definition enc_text (e : enc) : option str := match e with EAttr t => Some t | _ => None end.
+
+Lemma map_fst_map {A V W} (g : A * V -> W) (l : list (A * V)) : map fst (map (fun p => (fst p, g p)) l) = map fst l.
+Proof. induction l as [|x r IH]; simpl; [reflexivity|]. rewrite IH. reflexivity. Qed.
+
+Lemma filter_map_comm {A B} (p : B -> bool) (g : A -> B) (l : list A) :
+  filter p (map g l) = map g (filter (fun x => p (g x)) l).
+Proof. induction l as [|x r IH]; simpl; [reflexivity|]. destruct (p (g x)); simpl; rewrite IH; reflexivity. Qed.
+
+Lemma in_keys_slot {V} (sl : list (Z * V)) f : In f (map fst sl) -> exists v, In (f, v) sl.
+Proof. intros H. apply in_map_iff in H. destruct H as ([g v] & E & Hin). simpl in E. subst g. exists v. exact Hin. Qed.
+
+(* the three shapes a single-valued feature is written in *)
+Definition small (e : enc) : Prop := e = EAbsent \/ (exists t, e = EAttr t) \/ e = EElems [None].
+
+Lemma small_length f e : small e -> (length (enc_xattrs (f, e)) + length (enc_xelems (f, e)) <= 1)%nat.
+Proof. intros [->|[[t ->]| ->]]; cbn; lia. Qed.
+
+Lemma encode_single_small sd dflt v : small (encode_single sd dflt v).
+Proof.
+  unfold encode_single, small. destruct v as [s|].
+  - destruct (negb (ostr_eqb (Some s) dflt) || sd); [right; left; eexists; reflexivity | left; reflexivity].
+  - destruct (sd || negb (ostr_eqb dflt None)); [right; right; reflexivity | left; reflexivity].
+Qed.
+
+Section Phase1.
+  Variable mm : mmodel.
+  Variable o : opts.
+  Variable S : list sk.
+  Hypothesis Hmm : wf_mm mm = true.
+
+  (* what phase 1 must produce: the object without `_isset`, every reference as the text written for it *)
+  Fixpoint pre (t : obj) : tree (option str) :=
+    match t with
+    | Node c iss attrs refs kids =>
+      Node c [] attrs
+           (map (fun p => (fst p, enc_text (enc_ref mm o S (feat_in (c_refs (class_or mm c)) (fst p))
+                                                     (isset iss (fst p)) (snd p)))) refs)
+           (map (fun p => (fst p, pre (snd p))) kids)
+    end.
+
+  Lemma enc_tree_shape tag xty t :
+    x_tag (enc_tree mm o S tag xty t) = tag /\ x_type (enc_tree mm o S tag xty t) = xty
+    /\ x_nil (enc_tree mm o S tag xty t) = false.
+  Proof. destruct t as [c iss a r ks]. cbn [enc_tree]. destruct (find_class mm c); repeat split; reflexivity. Qed.
+
+  Lemma enc_attr_single_small d set vs : f_many d = false -> small (enc_attr o d set vs).
+  Proof.
+    intros Hm. unfold enc_attr. rewrite Hm. destruct (negb set); [left; reflexivity|]. apply encode_single_small.
+  Qed.
+
+  Lemma enc_ref_single_small d set ps : f_many d = false -> small (enc_ref mm o S d set ps).
+  Proof.
+    intros Hm. unfold enc_ref. rewrite Hm. destruct (negb set); [left; reflexivity|].
+    destruct ps as [|p r]; [destruct (o_sd o); [right; right|left]; reflexivity|].
+    right; left. eexists. reflexivity.
+  Qed.
+
+  (* a many-valued reference is never written as elements *)
+  Lemma enc_ref_many_no_elems d set ps f : f_many d = true -> enc_xelems (f, enc_ref mm o S d set ps) = [].
+  Proof.
+    intros Hm. unfold enc_ref, encode_refs. rewrite Hm. destruct (negb set); [reflexivity|].
+    destruct (map (frag_of mm S) ps); reflexivity.
+  Qed.
+
+  Section Node.
+    Variables (c : Z) (k : class) (iss : list Z) (attrs : list (Z * list ostr))
+              (refs : list (Z * list path)) (kids : list (Z * obj)).
+    Hypothesis Ek : find_class mm c = Some k.
+    Hypothesis Wattrs : map fst attrs = map f_id (c_attrs k).
+    Hypothesis Wrefs : map fst refs = map f_id (c_refs k).
+    Hypothesis Wkids : forall p, In p kids -> exists d, find_feat (c_conts k) (fst p) = Some d.
+    Hypothesis Wsingle : forall d, In d (c_conts k) -> f_many d = false ->
+                                   (length (kids_of (f_id d) kids) <= 1)%nat.
+
+    Let Hk : class_ok k := wf_mm_found mm c k Hmm Ek.
+
+    Definition ea : list (Z * enc) :=
+      map (fun p => (fst p, enc_attr o (feat_in (c_attrs k) (fst p)) (isset iss (fst p)) (snd p))) attrs.
+    Definition er : list (Z * enc) :=
+      map (fun p => (fst p, enc_ref mm o S (feat_in (c_refs k) (fst p)) (isset iss (fst p)) (snd p))) refs.
+    Definition es : list (Z * enc) := ea ++ er.
+    Definition enc_kid (p : Z * obj) : xml :=
+      enc_tree mm o S (TFeat (fst p)) (type_attr o (feat_in (c_conts k) (fst p)) (t_cls (snd p))) (snd p).
+    Definition xa : list (Z * str) := flat_map enc_xattrs es.
+    Definition xk : list xml := flat_map enc_xelems es ++ cont_nils o k iss kids ++ map enc_kid kids.
+
+    Lemma es_keys : map fst es = map f_id (c_attrs k) ++ map f_id (c_refs k).
+    Proof. unfold es, ea, er. rewrite map_app, !map_fst_map, Wattrs, Wrefs. reflexivity. Qed.
+
+    Lemma es_nodup : NoDup (map fst es).
+    Proof. rewrite es_keys. exact (nd_attrs_refs k Hk). Qed.
+
+    Lemma cont_not_key f : In f (map f_id (c_conts k)) -> ~ In f (map fst es).
+    Proof.
+      intros Hc Hin. rewrite es_keys in Hin. apply in_app_or in Hin. destruct Hin as [Ha|Hr].
+      - exact (attr_not_cont k Hk f Ha Hc).
+      - exact (ref_not_cont k Hk f Hr Hc).
+    Qed.
+
+    Lemma key_not_cont f : In f (map fst es) -> find_feat (c_conts k) f = None.
+    Proof.
+      intros Hin. apply find_feat_notin. intros Hc. exact (cont_not_key f Hc Hin).
+    Qed.
+
+    (* ---- the nil elements of containments and the child elements carry containment tags *)
+    Lemma cont_nils_form :
+      Forall (fun x => exists d, In d (c_conts k) /\ f_many d = false /\ x = nil_elem (f_id d)) (cont_nils o k iss kids).
+    Proof.
+      unfold cont_nils. apply Forall_flat_map. apply Forall_forall. intros d Hd.
+      destruct (o_sd o && isset iss (f_id d) && negb (f_many d) && is_nil (kids_of (f_id d) kids)) eqn:E; [|constructor].
+      constructor; [|constructor]. exists d. split; [exact Hd|]. split; [|reflexivity].
+      apply andb_true_iff in E. destruct E as [E _]. apply andb_true_iff in E. destruct E as [_ E].
+      apply negb_true_iff in E. exact E.
+    Qed.
+
+    Lemma has_tag_enc_kid f p : has_tag f (enc_kid p) = (fst p =? f).
+    Proof.
+      unfold has_tag, tag_fid, enc_kid. rewrite (proj1 (enc_tree_shape _ _ _)). reflexivity.
+    Qed.
+
+    Lemma tagged_kids f : elems_tagged f (map enc_kid kids) = map enc_kid (filter (fun p => fst p =? f) kids).
+    Proof.
+      unfold elems_tagged. rewrite filter_map_comm. f_equal. apply filter_ext. intros p. apply has_tag_enc_kid.
+    Qed.
+
+    Lemma tagged_noncont f : ~ In f (map f_id (c_conts k)) ->
+      elems_tagged f (cont_nils o k iss kids) = [] /\ elems_tagged f (map enc_kid kids) = [].
+    Proof.
+      intros Hn. split.
+      - apply filter_all_false. eapply Forall_impl'; [|exact cont_nils_form].
+        intros x (d & Hd & _ & ->). unfold has_tag, tag_fid, nil_elem. cbn.
+        apply Z.eqb_neq. intros E. apply Hn. rewrite <- E. apply in_map. exact Hd.
+      - rewrite tagged_kids. rewrite filter_all_false; [reflexivity|].
+        apply Forall_forall. intros p Hp. apply Z.eqb_neq. intros E.
+        destruct (Wkids p Hp) as (d & Hd). destruct (find_feat_some _ _ _ Hd) as [Hid Hin].
+        apply Hn. rewrite <- E, <- Hid. apply in_map. exact Hin.
+    Qed.
+
+    (* ---- a feature with a slot: what the element holds for it *)
+    Lemma slot_back f e : In (f, e) es ->
+      attrs_named f xa = enc_xattrs (f, e) /\ elems_tagged f xk = enc_xelems (f, e).
+    Proof.
+      intros Hin. destruct (named_in es f e es_nodup Hin) as [H1 H2]. split; [exact H1|].
+      assert (Hnc : ~ In f (map f_id (c_conts k))).
+      { intros Hc. apply (cont_not_key f Hc). change f with (fst (f, e)). apply in_map. exact Hin. }
+      destruct (tagged_noncont f Hnc) as [H3 H4].
+      unfold xk, elems_tagged in *. rewrite !filter_app, H2, H3, H4, !app_nil_r. reflexivity.
+    Qed.
+
+    Lemma attr_slot_in a : In a attrs ->
+      In (fst a, enc_attr o (feat_in (c_attrs k) (fst a)) (isset iss (fst a)) (snd a)) es.
+    Proof. intros H. unfold es, ea. apply in_or_app. left. apply in_map_iff. exists a. split; [reflexivity | exact H]. Qed.
+
+    Lemma ref_slot_in a : In a refs ->
+      In (fst a, enc_ref mm o S (feat_in (c_refs k) (fst a)) (isset iss (fst a)) (snd a)) es.
+    Proof. intros H. unfold es, er. apply in_or_app. right. apply in_map_iff. exists a. split; [reflexivity | exact H]. Qed.
+
+    Lemma feat_in_attr d : In d (c_attrs k) -> feat_in (c_attrs k) (f_id d) = d.
+    Proof. intros H. unfold feat_in. rewrite (find_feat_in _ d (nd_attrs k Hk) H). reflexivity. Qed.
+    Lemma feat_in_ref d : In d (c_refs k) -> feat_in (c_refs k) (f_id d) = d.
+    Proof. intros H. unfold feat_in. rewrite (find_feat_in _ d (nd_refs k Hk) H). reflexivity. Qed.
+    Lemma feat_in_cont d : In d (c_conts k) -> feat_in (c_conts k) (f_id d) = d.
+    Proof. intros H. unfold feat_in. rewrite (find_feat_in _ d (nd_conts k Hk) H). reflexivity. Qed.
+
+    (* ---- attributes *)
+    Hypothesis Wattr_vals : forall a, In a attrs ->
+      let d := feat_in (c_attrs k) (fst a) in
+      (f_many d || (length (snd a) =? 1)%nat)
+      && (isset iss (fst a)
+          || (if f_many d then is_nil (snd a)
+              else match snd a with [v] => ostr_eqb v (f_dflt d) | _ => false end)) = true.
+
+    Lemma attrs_back : map (fun d => (f_id d, read_attr d xa xk)) (c_attrs k) = attrs.
+    Proof.
+      apply zip_map; [exact Wattrs|]. intros a d Ha Hd Hfd.
+      pose proof (Wattr_vals a Ha) as W. cbv zeta in W. rewrite Hfd, (feat_in_attr d Hd) in W.
+      pose proof (attr_slot_in a Ha) as Hin. rewrite Hfd, (feat_in_attr d Hd) in Hin.
+      destruct (slot_back _ _ Hin) as [B1 B2].
+      apply andb_true_iff in W. destruct W as [W1 W2].
+      destruct (f_many d) eqn:Em.
+      - rewrite (read_many_back _ _ xa xk B1 B2 d eq_refl Em). unfold enc_attr. rewrite Em.
+        destruct (isset iss (f_id d)); cbn [negb].
+        + apply many_roundtrip.
+        + cbn [orb] in W2. destruct (snd a); [reflexivity | discriminate].
+      - rewrite (read_single_back _ _ xa xk B1 B2 d eq_refl Em). unfold enc_attr. rewrite Em.
+        cbn [orb] in W1. apply Nat.eqb_eq in W1.
+        destruct (snd a) as [|v [|v' r]]; try discriminate.
+        destruct (isset iss (f_id d)); cbn [negb].
+        + rewrite single_roundtrip. reflexivity.
+        + cbn [orb] in W2. cbn [decode_single]. rewrite (ostr_eqb_eq _ _ W2). reflexivity.
+    Qed.
+
+    (* ---- references: the text is kept *)
+    Lemma refs_back :
+      map (fun d => (f_id d, lookup_attr (f_id d) xa)) (c_refs k)
+      = map (fun p => (fst p, enc_text (enc_ref mm o S (feat_in (c_refs k) (fst p)) (isset iss (fst p)) (snd p)))) refs.
+    Proof.
+      apply zip_map; [rewrite map_fst_map; exact Wrefs|]. intros a d Ha Hd Hfd.
+      apply in_map_iff in Ha. destruct Ha as (p & <- & Hp). cbn [fst snd] in *.
+      pose proof (ref_slot_in p Hp) as Hin. destruct (slot_back _ _ Hin) as [B1 B2].
+      rewrite <- Hfd. rewrite (lookup_back _ _ xa xk B1 B2). reflexivity.
+    Qed.
+
+    (* ---- the three checks of the reader pass *)
+    Lemma attrs_ok_back : attrs_ok k xa = true.
+    Proof.
+      unfold attrs_ok. apply forallb_forall. intros q Hq. unfold xa in Hq. apply in_flat_map in Hq.
+      destruct Hq as ([f e] & Hin & Hq). unfold enc_xattrs in Hq. cbn [fst snd] in Hq.
+      destruct e as [|t|l]; try contradiction. destruct Hq as [<-|[]]. cbn [fst].
+      assert (Hkey : In f (map fst es)) by (change f with (fst (f, EAttr t)); apply in_map; exact Hin).
+      rewrite es_keys, <- map_app in Hkey.
+      destruct (find_feat (c_attrs k ++ c_refs k) f) eqn:E; [reflexivity|].
+      exfalso. exact (find_feat_none _ _ E Hkey).
+    Qed.
+
+    Hypothesis Wref_single : forall a, In a refs -> In (feat_in (c_refs k) (fst a)) (c_refs k).
+
+    Lemma elems_ok_back : forallb (elem_ok k) xk = true.
+    Proof.
+      apply forallb_forall. intros x Hx. unfold xk in Hx. apply in_app_or in Hx. destruct Hx as [Hx|Hx].
+      - apply in_flat_map in Hx. destruct Hx as ([f e] & Hin & Hx).
+        unfold enc_xelems in Hx. cbn [fst snd] in Hx. destruct e as [|t|l]; try contradiction.
+        apply in_map_iff in Hx. destruct Hx as (ov & <- & Hov).
+        unfold elem_ok. assert (Ht : tag_fid (value_elem f ov) = Some f) by (destruct ov; reflexivity). rewrite Ht.
+        destruct (find_feat (c_attrs k) f) eqn:Ea; [reflexivity|].
+        unfold es in Hin. apply in_app_or in Hin. destruct Hin as [Hin|Hin].
+        + exfalso. unfold ea in Hin. apply in_map_iff in Hin. destruct Hin as (a & E & Ha). inversion E; subst.
+          apply (find_feat_none _ _ Ea). rewrite <- Wattrs. apply in_map. exact Ha.
+        + unfold er in Hin. apply in_map_iff in Hin. destruct Hin as (a & E & Ha). inversion E as [[E1 E2]]; subst f.
+          pose proof (Wref_single a Ha) as Hd. set (d := feat_in (c_refs k) (fst a)) in *.
+          assert (Hfd : find_feat (c_refs k) (fst a) = Some d).
+          { unfold d, feat_in in *. destruct (find_feat (c_refs k) (fst a)) as [d'|] eqn:E; [reflexivity|].
+            exfalso. apply (find_feat_none _ _ E). rewrite <- Wrefs. apply in_map. exact Ha. }
+          rewrite Hfd. destruct (f_many d) eqn:Em.
+          * exfalso. pose proof (enc_ref_many_no_elems d (isset iss (fst a)) (snd a) (fst a) Em) as Hno.
+            unfold enc_xelems in Hno. cbn [fst snd] in Hno. rewrite E2 in Hno.
+            destruct l; [contradiction | discriminate].
+          * destruct (enc_ref_single_small d (isset iss (fst a)) (snd a) Em) as [H|[[t H]|H]];
+              rewrite E2 in H; try discriminate. inversion H; subst l.
+            destruct Hov as [<-|[]]. reflexivity.
+      - apply in_app_or in Hx. destruct Hx as [Hx|Hx].
+        + pose proof cont_nils_form as HF. rewrite Forall_forall in HF. destruct (HF x Hx) as (d & Hd & Hm & ->).
+          unfold elem_ok. cbn [tag_fid x_tag nil_elem].
+          assert (Hc : In (f_id d) (map f_id (c_conts k))) by (apply in_map; exact Hd).
+          rewrite (find_feat_notin (c_attrs k) (f_id d)) by (intros Ha; exact (attr_not_cont k Hk _ Ha Hc)).
+          rewrite (find_feat_notin (c_refs k) (f_id d)) by (intros Hr; exact (ref_not_cont k Hk _ Hr Hc)).
+          rewrite (find_feat_in _ d (nd_conts k Hk) Hd). rewrite Hm. reflexivity.
+        + apply in_map_iff in Hx. destruct Hx as (p & <- & Hp).
+          destruct (Wkids p Hp) as (d & Hd). destruct (find_feat_some _ _ _ Hd) as [Hid Hin].
+          assert (Hc : In (fst p) (map f_id (c_conts k))) by (rewrite <- Hid; apply in_map; exact Hin).
+          unfold elem_ok, tag_fid, enc_kid.
+          destruct (enc_tree_shape (TFeat (fst p)) (type_attr o (feat_in (c_conts k) (fst p)) (t_cls (snd p))) (snd p))
+            as (T1 & _ & T3). rewrite T1, T3.
+          rewrite (find_feat_notin (c_attrs k) (fst p)) by (intros Ha; exact (attr_not_cont k Hk _ Ha Hc)).
+          rewrite (find_feat_notin (c_refs k) (fst p)) by (intros Hr; exact (ref_not_cont k Hk _ Hr Hc)).
+          rewrite Hd. reflexivity.
+    Qed.
+
+    Lemma singles_ok_back : singles_ok k xa xk = true.
+    Proof.
+      unfold singles_ok. apply forallb_forall. intros d Hd.
+      destruct (f_many d) eqn:Em; [reflexivity|]. cbn [orb]. apply Nat.leb_le.
+      unfold all_feats in Hd. apply in_app_or in Hd. destruct Hd as [Hd|Hd]; [|apply in_app_or in Hd; destruct Hd as [Hd|Hd]].
+      - assert (Hkey : In (f_id d) (map fst attrs)) by (rewrite Wattrs; apply in_map; exact Hd).
+        destruct (in_keys_slot attrs _ Hkey) as (vs & Hin).
+        pose proof (attr_slot_in _ Hin) as Hs. cbn [fst snd] in Hs. rewrite (feat_in_attr d Hd) in Hs.
+        destruct (slot_back _ _ Hs) as [B1 B2]. rewrite (occurrences_back _ _ xa xk B1 B2).
+        apply small_length. apply enc_attr_single_small. exact Em.
+      - assert (Hkey : In (f_id d) (map fst refs)) by (rewrite Wrefs; apply in_map; exact Hd).
+        destruct (in_keys_slot refs _ Hkey) as (ps & Hin).
+        pose proof (ref_slot_in _ Hin) as Hs. cbn [fst snd] in Hs. rewrite (feat_in_ref d Hd) in Hs.
+        destruct (slot_back _ _ Hs) as [B1 B2]. rewrite (occurrences_back _ _ xa xk B1 B2).
+        apply small_length. apply enc_ref_single_small. exact Em.
+      - assert (Hc : In (f_id d) (map f_id (c_conts k))) by (apply in_map; exact Hd).
+        destruct (named_notin es (f_id d) (cont_not_key _ Hc)) as [N1 N2].
+        unfold occurrences. fold xa in N1. rewrite N1. cbn [length plus].
+        unfold xk, elems_tagged in *. rewrite !filter_app, N2. cbn [app]. rewrite app_length.
+        fold (elems_tagged (f_id d) (map enc_kid kids)). rewrite tagged_kids, map_length.
+        pose proof (Wsingle d Hd Em) as Hle. unfold kids_of in Hle. rewrite map_length in Hle.
+        (* the nil element is written only when there is no child *)
+        assert (Hnil : (length (filter (has_tag (f_id d)) (cont_nils o k iss kids))
+                        <= if is_nil (kids_of (f_id d) kids) then 1 else 0)%nat).
+        { unfold cont_nils. rewrite filter_flat_map.
+          pose proof (nd_conts k Hk) as Hnd. revert Hnd Hd. generalize (c_conts k) as L.
+          induction L as [|d' L IH]; intros Hnd Hd; [contradiction|].
+          simpl in Hnd. inversion Hnd as [|u v Hx Hr]; subst. cbn [flat_map]. rewrite app_length.
+          destruct Hd as [->|Hd].
+          - assert (Hrest : flat_map (fun x => filter (has_tag (f_id d))
+                       (if o_sd o && isset iss (f_id x) && negb (f_many x) && is_nil (kids_of (f_id x) kids)
+                        then [nil_elem (f_id x)] else [])) L = []).
+            { clear IH Hnd Hr. induction L as [|y L' IH']; [reflexivity|]. cbn [flat_map].
+              rewrite IH' by (intros H; apply Hx; right; exact H).
+              destruct (o_sd o && isset iss (f_id y) && negb (f_many y) && is_nil (kids_of (f_id y) kids)); [|reflexivity].
+              cbn. unfold has_tag, tag_fid. cbn.
+              destruct (Z.eqb_spec (f_id y) (f_id d)) as [E|_]; [|reflexivity].
+              exfalso. apply Hx. left. exact E. }
+            rewrite Hrest. cbn [length]. rewrite Nat.add_0_r.
+            destruct (o_sd o && isset iss (f_id d) && negb (f_many d) && is_nil (kids_of (f_id d) kids)) eqn:E.
+            + apply andb_true_iff in E. destruct E as [_ E]. rewrite E. cbn. destruct (has_tag (f_id d) (nil_elem (f_id d))); cbn; lia.
+            + cbn. lia.
+          - assert (Hne : f_id d' <> f_id d).
+            { intros E. apply Hx. rewrite E. apply in_map. exact Hd. }
+            assert (H0 : filter (has_tag (f_id d))
+                       (if o_sd o && isset iss (f_id d') && negb (f_many d') && is_nil (kids_of (f_id d') kids)
+                        then [nil_elem (f_id d')] else []) = []).
+            { destruct (o_sd o && isset iss (f_id d') && negb (f_many d') && is_nil (kids_of (f_id d') kids)); [|reflexivity].
+              cbn. unfold has_tag, tag_fid. cbn. destruct (Z.eqb_spec (f_id d') (f_id d)); [contradiction|reflexivity]. }
+            rewrite H0. cbn [length plus]. exact (IH Hr Hd). }
+        unfold kids_of in Hnil. destruct (filter (fun p => fst p =? f_id d) kids) as [|p0 r0] eqn:Ef.
+        + cbn [map is_nil length] in *. lia.
+        + cbn [map is_nil length] in *. lia.
+    Qed.
+
+    (* ---- the children *)
+    Hypothesis IHkids : forall p, In p kids ->
+      dec_obj mm (t_cls (snd p)) (enc_kid p) = Some (pre (snd p)).
+    Hypothesis Wconf : forall p d, In p kids -> find_feat (c_conts k) (fst p) = Some d ->
+      conforms mm (t_cls (snd p)) (f_type d) = true.
+
+    Lemma kids_back : collect (dec_kid mm (dec_obj mm) k) xk = Some (map (fun p => (fst p, pre (snd p))) kids).
+    Proof.
+      unfold xk.
+      rewrite (collect_app _ _ _ [] ([] ++ map (fun p => (fst p, pre (snd p))) kids)); [reflexivity| |].
+      - apply collect_skip. apply Forall_flat_map. apply Forall_forall. intros [f e] Hin.
+        unfold enc_xelems. cbn [fst snd]. destruct e as [|t|l]; try constructor.
+        apply Forall_forall. intros x Hx. apply in_map_iff in Hx. destruct Hx as (ov & <- & _).
+        unfold dec_kid. assert (Ht : tag_fid (value_elem f ov) = Some f) by (destruct ov; reflexivity). rewrite Ht.
+        rewrite (key_not_cont f); [reflexivity|]. change f with (fst (f, EElems l)). apply in_map. exact Hin.
+      - apply collect_app.
+        + apply collect_skip. eapply Forall_impl'; [|exact cont_nils_form].
+          intros x (d & Hd & _ & ->). unfold dec_kid. cbn [tag_fid x_tag nil_elem].
+          rewrite (find_feat_in _ d (nd_conts k Hk) Hd). reflexivity.
+        + apply collect_keep. apply Forall_forall. intros p Hp.
+          destruct (Wkids p Hp) as (d & Hd).
+          unfold dec_kid, tag_fid.
+          pose proof (IHkids p Hp) as IHp. unfold enc_kid in *.
+          destruct (enc_tree_shape (TFeat (fst p)) (type_attr o (feat_in (c_conts k) (fst p)) (t_cls (snd p))) (snd p))
+            as (T1 & T2 & T3). rewrite T1, T2, T3, Hd.
+          assert (Hfi : feat_in (c_conts k) (fst p) = d) by (unfold feat_in; rewrite Hd; reflexivity).
+          rewrite Hfi in *.
+          assert (Hc' : match type_attr o d (t_cls (snd p)) with Some (_, c0) => c0 | None => f_type d end = t_cls (snd p)).
+          { unfold type_attr. destruct (Z.eqb_spec (f_type d) (t_cls (snd p))) as [E|_]; [exact E | reflexivity]. }
+          rewrite Hc', (Wconf p d Hp Hd), IHp. reflexivity.
+    Qed.
+
+    Hypothesis Wabs : c_abstract k = false.
+
+    Theorem node_back tag xty :
+      dec_obj mm c (enc_tree mm o S tag xty (Node c iss attrs refs kids))
+      = Some (pre (Node c iss attrs refs kids)).
+    Proof.
+      cbn [enc_tree]. rewrite Ek. fold ea er es. fold xa.
+      change (flat_map enc_xelems es ++ cont_nils o k iss kids
+              ++ map (fun p => enc_tree mm o S (TFeat (fst p))
+                                 (type_attr o (feat_in (c_conts k) (fst p)) (t_cls (snd p))) (snd p)) kids) with xk.
+      cbn [dec_obj]. rewrite Ek, Wabs, attrs_ok_back, elems_ok_back, singles_ok_back. cbn [andb].
+      rewrite kids_back, attrs_back, refs_back.
+      cbn [pre]. unfold class_or. rewrite Ek. reflexivity.
+    Qed.
+  End Node.
+End Phase1.
